@@ -41,8 +41,8 @@ def char_class_complement_ok(pattern):
 
 class C18(Prop):
     id = "C18"
-    contract_modules = ["lexer"]
-    extra_keys = ["vyxal/lexer.py::tokenise"]
+    contract_modules = ["lexer", "transpiler"]
+    extra_keys = ["vyxal/lexer.py::tokenise", "vyxal/transpile.py::transpile_token"]
     trusted_base = ["CPython repr(str) yields one string literal; int formatting yields -?[0-9]+", "re.sub with a negated character class is a character filter", "z3 5.1 / cvc5 1.0.3 (unsat answers)"]
     paper_steps = ["every place where transpile.py interpolates a value into its output is enumerated from the ast and must be claimed by the table SITES with its class (constant position or sanitised identifier); tokenise == lex (proved) with the two token-text lemmas gives the character sets of names and numbers; everything else in the output is template text from the element table"]
 
